@@ -14,8 +14,9 @@ def extra(chk, results, scs):
     chk.coverage['lookup_comparisons_worst'] = worst
     chk.coverage['lookup_comparisons_bound'] = bound
     chk.obligation('every lookup of a stored key costs at most 4*ceil(log2(n+1))+2 = %d key comparisons (n <= %d)' % (bound, nmax), 'holds' if worst <= bound else 'violated')
-    if worst > bound:
-        chk.inconclusive.append('a lookup needed %d key comparisons (bound %d) although the red-black invariants hold' % (worst, bound))
+    # (an excess is raised per path as a finding `tree lookup cost` - present and absent probes - and confirmed by the native
+    # replay, which counts Eq/Ord calls of its key type per lookup)
+    chk.coverage['lookup_comparisons_worst_absent'] = max([r.get('cmp_absent_max', 0) for r in results] + [0])
 
 
 def extra2(chk, results, scs):
